@@ -64,6 +64,8 @@ type C10Case struct {
 	// WriteFaults / WriteDeadline: the trunk's Write fails with (0, err) and works again afterwards
 	WriteFaults   []C10WriteFault `json:"write_faults,omitempty"`
 	WriteDeadline *C10Deadline    `json:"write_deadline,omitempty"`
+	// Stalls: the trunk pauses once inside a frame
+	Stalls []C10Stall `json:"stalls,omitempty"`
 	// Bursts: backlogs that approach the configured queue length, run after the traffic
 	Bursts []C10Burst `json:"bursts,omitempty"`
 	// Mixed: rounds of concurrent Open/Close of different ids on one end, run after the barrier rounds
@@ -150,6 +152,7 @@ func genC10(t *rapid.T) C10Case {
 	c.Rounds = genRounds(t, c.minQLen())
 	c.Mixed = genMixed(t)
 	c.Bursts = genBursts(t)
+	c.Stalls = genStalls(t)
 	genWriteFaults(t, &c)
 	if rapid.IntRange(0, 1).Draw(t, "ghosts") == 0 {
 		c.Ghosts = rapid.SliceOfN(rapid.Custom(func(t *rapid.T) C10Ghost {
@@ -267,9 +270,14 @@ func runC10Once(c C10Case) (ev.Outcome, bool) {
 		blocked = [2]bool{true, true}
 	}
 	var wrap func(int, net.Conn) net.Conn
-	if len(c.WriteFaults) > 0 {
+	if len(c.WriteFaults) > 0 || len(c.Stalls) > 0 {
 		wrap = func(side int, raw net.Conn) net.Conn {
 			r.fc[side] = &faultConn{Conn: raw, onFatal: func() { r.fatalFault.Store(true) }}
+			for _, st := range c.Stalls {
+				if st.Side == side {
+					r.fc[side].stalls = append(r.fc[side].stalls, st)
+				}
+			}
 			return r.fc[side]
 		}
 	}
@@ -979,6 +987,12 @@ func c10Classes(c C10Case) []string {
 				cls = append(cls, "concurrent_open_via_dialer_or_listener")
 				break
 			}
+		}
+	}
+	for _, st := range c.Stalls {
+		cls = append(cls, "stall_inside_frame:"+st.Where)
+		if st.Ms >= 2000 {
+			cls = append(cls, "long_stall_inside_frame")
 		}
 	}
 	if len(c.WriteFaults) > 0 {
